@@ -221,8 +221,8 @@ def run_handover(doc, spec):
     c = com[0]
     by_line = {}
     for path, m in doc.nodes():
-        if isinstance(m, sc.SurroundingCommentsMixin) and hasattr(m, '_leading_comment_pivot'):
-            by_line[line_of(m._leading_comment_pivot)] = m
+        if has_surrounding(m) and own_start_token(m) is not None:
+            by_line[line_of(own_start_token(m))] = m
     below = by_line.get(spec['below']) if spec['below'] is not None else None
     above = by_line.get(spec['above']) if spec['above'] is not None else None
     other = by_line.get(spec['below_other']) if spec.get('below_other') is not None else None
@@ -301,14 +301,102 @@ def run_handover(doc, spec):
     return msgs
 
 
+
+# ---------------------------------------------------------------------------------------------
+# observation through the public API only (private names of the implementation may change freely)
+SUR_CALLS = ('claim_leading_comment', 'claim_trailing_comment', 'unclaim_leading_comment', 'unclaim_trailing_comment')
+INT_CALLS = ('claim_interleaving_comments', 'unclaim_interleaving_comments')
+
+
+def has_surrounding(m) -> bool:
+    return all(hasattr(m, n) for n in SUR_CALLS)
+
+
+def lead_of(m):
+    return getattr(m, 'raw_leading_comment', None)
+
+
+def trail_of(m):
+    return getattr(m, 'raw_trailing_comment', None)
+
+
+def own_start_token(m):
+    """first token of the model that is not its leading comment"""
+    t = m.first_token
+    lead = lead_of(m)
+    if lead is not None and t is lead:
+        store = m.token_store
+        t = store.get_next(t)
+        while t is not None and type(t).__name__ in ('Newline', 'Placeholder'):
+            t = store.get_next(t)
+    return t
+
+
+def indented_of(tok) -> bool:
+    """indentation class of the line that starts with this token"""
+    if type(tok).__name__ == 'BlockComment':
+        return bool(tok.indent)
+    return type(tok).__name__ == 'Indent'
+
+
+def owner_class(obj, name):
+    for cls in type(obj).__mro__:
+        if name in cls.__dict__:
+            return cls
+    return None
+
+
+_PATCHED = None
+_PATCH_CACHE: dict = {}
+_WRAP_NAMES: dict = {}
+
+
+def wrapper_names(ty) -> list[str]:
+    """public attributes of a model class that may hold a repeated field with interleaving comments"""
+    if ty not in _WRAP_NAMES:
+        _WRAP_NAMES[ty] = [n for n in dir(ty) if n.startswith('raw_') and n.endswith('_with_comments')]
+    return _WRAP_NAMES[ty]
+
+
+def is_patched() -> bool:
+    """does automatic/manual claiming compare indentation classes (the D13 repair)?  Decided by behaviour."""
+    global _PATCHED
+    if _PATCHED is None:
+        models = _imp()[2]
+        f = get_parser().parse('  ; ind\n2000-01-02 close Assets:A\n', models.File)
+        _PATCHED = not any(lead_of(m) is not None for _p, m in Doc.walk(f) if has_surrounding(m))
+    return _PATCHED
+
+
+def private_observable() -> list[str]:
+    """which private names the finer, primitive-level cross-check could use are missing (optional check)"""
+    import inspect
+    _, _, _, _, _, sc, ic, _ = _imp()
+    missing = []
+    f = getattr(sc, '_claim_comment', None)
+    if f is None or not {'current', 'token_store', 'start', 'backwards', 'ignore_if_already_claimed'} <= \
+            set(inspect.signature(f).parameters):
+        missing.append('surrounding_comments._claim_comment(current, token_store, start, backwards, ...)')
+    for n in ('_take_ignored',):
+        if not hasattr(sc, n):
+            missing.append('surrounding_comments.' + n)
+    cl = getattr(ic, '_CommentClaimer', None)
+    if cl is None or not all(hasattr(cl, n) for n in ('claim', '_find_inner', '_find_outer')):
+        missing.append('interleaving_comments._CommentClaimer.{claim,_find_inner,_find_outer}')
+    for n in ('_shift_ignored', '_Universe'):
+        if not hasattr(ic, n):
+            missing.append('interleaving_comments.' + n)
+    return missing
+
+
 # ---------------------------------------------------------------------------------------------
 class Doc:
     """One parsed document plus everything needed to observe it."""
 
-    def __init__(self, text: str, flag: bool):
+    def __init__(self, text: str, flag: bool, file=None):
         _, _, models, _, base, sc, ic, Repeated = _imp()
         self.text = text
-        self.file = get_parser().parse(text, models.File, auto_claim_comments=flag)
+        self.file = file if file is not None else get_parser().parse(text, models.File, auto_claim_comments=flag)
         self.ids: dict[int, int] = {}
         self.objs: list = []
         self.nids: dict[int, int] = {}
@@ -316,8 +404,37 @@ class Doc:
         for t in self.file.token_store:
             self.tid(t)
         self.log: list = []          # primitive calls of the current API call
+        self.private_mismatch = 0
+        self.parents: dict[int, object] = {}
         for _path, m in self.nodes():  # deterministic owner ids: tree order at parse time
             self.nid(m)
+            if not isinstance(m, Repeated):
+                for v in vars(m).values():
+                    if isinstance(v, Repeated):
+                        self.parents[id(v)] = m
+        # where the public comment calls are defined (patched for the duration of one API call)
+        pts = {}
+        for _path, m in self.nodes():
+            if isinstance(m, Repeated):
+                continue
+            ty = type(m)
+            if ty not in _PATCH_CACHE:
+                found = []
+                if has_surrounding(m):
+                    for n in SUR_CALLS:
+                        cls = owner_class(m, n)
+                        if cls is not None:
+                            found.append((cls, n))
+                for name in wrapper_names(ty):
+                    w = getattr(m, name, None)
+                    for n in INT_CALLS:
+                        cls = owner_class(w, n) if w is not None and hasattr(w, n) else None
+                        if cls is not None:
+                            found.append((cls, n))
+                _PATCH_CACHE[ty] = found
+            for k in _PATCH_CACHE[ty]:
+                pts[k] = True
+        self.patch_points = list(pts)
 
     def tid(self, t) -> int:
         k = id(t)
@@ -343,11 +460,11 @@ class Doc:
                 cs = [self.tid(it) for it in m.items if isinstance(it, models.BlockComment)]
                 if cs:
                     out.append(('SRep', self.nid(m), cs))
-            elif isinstance(m, sc.SurroundingCommentsMixin):
-                if m._leading_comment is not None:
-                    out.append(('SLead', self.nid(m), [self.tid(m._leading_comment)]))
-                if m._trailing_comment is not None:
-                    out.append(('STrail', self.nid(m), [self.tid(m._trailing_comment)]))
+            elif has_surrounding(m):
+                if lead_of(m) is not None:
+                    out.append(('SLead', self.nid(m), [self.tid(lead_of(m))]))
+                if trail_of(m) is not None:
+                    out.append(('STrail', self.nid(m), [self.tid(trail_of(m))]))
         return out
 
     def tokens(self):
@@ -363,6 +480,10 @@ class Doc:
 
     # --- tree walk ---------------------------------------------------------------------------
     def nodes(self):
+        return Doc.walk(self.file)
+
+    @staticmethod
+    def walk(root):
         """(path, model) for every tree model, Repeated included, in a deterministic order"""
         _, _, _, _, base, _, _, Repeated = _imp()
         out = []
@@ -378,7 +499,7 @@ class Doc:
             for k, v in vars(m).items():
                 if k.startswith('_') and k != '_token_store' and isinstance(v, base.RawModel):
                     walk(v, path + '.' + k)
-        walk(self.file, 'F')
+        walk(root, 'F')
         return out
 
     def ownership(self):
@@ -411,68 +532,41 @@ class Doc:
             if isinstance(m, Repeated):
                 continue
             allm.append((path, m))
-            if isinstance(m, sc.SurroundingCommentsMixin):
+            if has_surrounding(m):
                 sur.append((path, m))
-            for name in dir(type(m)):
-                if isinstance(getattr(type(m), name, None), ic.repeated_node_with_interleaving_comments_property):
+            for name in wrapper_names(type(m)):
+                if hasattr(getattr(m, name, None), 'claim_interleaving_comments'):
                     wrap.append((path + '.' + name, m, name))
         return sur, wrap, allm
 
 
 class Tap:
-    """Logs every primitive comment operation the implementation performs (no source hooks: module attributes
-    are wrapped for the duration of one API call)."""
+    """Logs every *public* comment call the implementation performs on the document (claim_/unclaim_
+    leading/trailing/interleaving, also those made from inside auto_claim_comments): arguments, first/last tokens
+    read through public properties, result, store and slot afterwards.  The classes that define these methods are
+    patched for the duration of one API call; nothing private is needed.
+    Optional finer cross-check: when `surrounding_comments._claim_comment` exists with the expected signature, the
+    start token / indentation class it is called with are compared with the publicly derived ones."""
 
     def __init__(self, doc: Doc):
         self.doc = doc
 
     def __enter__(self):
+        import inspect
         _, _, models, _, _, sc, ic, _ = _imp()
         d = self.doc
-        self.sc, self.ic = sc, ic
-        self.orig_claim = sc._claim_comment
-        self.orig_claimer = ic._CommentClaimer.claim
-        self.orig_ul = sc.SurroundingCommentsMixin.unclaim_leading_comment
-        self.orig_ut = sc.SurroundingCommentsMixin.unclaim_trailing_comment
-        self.orig_ui = ic.RepeatedNodeWithInterleavingCommentsWrapper.unclaim_interleaving_comments
-        self.orig_cl = sc.SurroundingCommentsMixin.claim_leading_comment
-        self.orig_ct = sc.SurroundingCommentsMixin.claim_trailing_comment
-        self.slot = None
+        store = d.file.token_store
+        patched = is_patched()
         tap = self
+        self.saved = []
+        self.private = None
 
-        def claim_method(which, orig):
-            def f(self_, **kw):
-                tap.slot = (d.nid(self_), which, self_)
-                try:
-                    return orig(self_, **kw)
-                finally:
-                    tap.slot = None
-            return f
+        def before_snap():
+            return d.log[-1]['after'] if d.log and 'after' in d.log[-1] else d.snap()
 
-        def same_store(ts):
-            return ts is d.file.token_store
-
-        def claim(current, token_store, start, **kw):
-            if not same_store(token_store):
-                return tap.orig_claim(current, token_store, start, **kw)
-            n, which, owner = tap.slot if tap.slot else (0, 'lead' if kw['backwards'] else 'trail', None)
-            rec = {'op': 'claim', 'cur': d.tid(current) if current is not None else None, 'start': d.tid(start),
-                   'bw': kw['backwards'], 'ign': kw['ignore_if_already_claimed'],
-                   'ind': kw.get('indented'), 'before': d.snap(), 'n': n, 'which': which, 'mode': 0}
-            r = current
-            try:
-                r = tap.orig_claim(current, token_store, start, **kw)
-                rec['exc'] = None
-                rec['ret'] = d.tid(r) if r is not None else None
-                return r
-            except Exception as e:
-                rec['exc'] = common.exn_name(e)
-                rec['ret'] = None
-                raise
-            finally:
-                rec['after'] = d.snap()
-                rec['slot_after'] = [d.tid(r)] if r is not None else []
-                d.log.append(rec)
+        def slot_of(m, which):
+            x = lead_of(m) if which == 'lead' else trail_of(m)
+            return [d.tid(x)] if x is not None else []
 
         def items_of(rep):
             out = []
@@ -481,87 +575,128 @@ class Tap:
                 out.append((isc, d.tid(it) if isc else 0, d.tid(it.first_token), d.tid(it.last_token)))
             return out
 
-        def claimer(self_):
-            rep = self_._repeated
-            if not same_store(rep.token_store):
-                return tap.orig_claimer(self_)
-            flt = None if isinstance(self_._comments_to_claim, ic._Universe) else \
-                sorted(d.ids.get(x, 0) for x in self_._comments_to_claim)
-            rec = {'op': 'claimer', 'ph': d.tid(rep.first_token), 'items': items_of(rep),
-                   'mfirst': d.tid(self_._model.first_token), 'mlast': d.tid(self_._model.last_token),
-                   'filter': flt, 'before': d.snap(), 'r': d.nid(rep), 'mode': 0}
-            try:
-                r = tap.orig_claimer(self_)
-                rec['exc'] = None
-                rec['ret'] = [d.tid(c) for c in r]
-                return r
-            except Exception as e:
-                rec['exc'] = common.exn_name(e)
-                rec['ret'] = []
-                raise
-            finally:
-                rec['after'] = d.snap()
-                rec['items_after'] = [(a, b) for a, b, _, _ in items_of(rep)]
-                rec['slot_after'] = [b for a, b, _, _ in items_of(rep) if a]
-                d.log.append(rec)
+        def claim_method(which, orig):
+            def f(self_, *a, **kw):
+                if self_.token_store is not store:
+                    return orig(self_, *a, **kw)
+                ig = bool(kw.get('ignore_if_already_claimed', a[0] if a else False))
+                cur = lead_of(self_) if which == 'lead' else trail_of(self_)
+                start = self_.first_token if which == 'lead' else self_.last_token
+                ind = indented_of(self_.first_token) if patched else None
+                rec = {'op': 'claim', 'cur': d.tid(cur) if cur is not None else None, 'start': d.tid(start),
+                       'bw': which == 'lead', 'ign': ig, 'ind': ind, 'before': before_snap(), 'n': d.nid(self_),
+                       'which': which, 'mode': 0}
+                tap.private = None
+                try:
+                    r = orig(self_, *a, **kw)
+                    rec['exc'] = None
+                    rec['ret'] = d.tid(r) if r is not None else None
+                    return r
+                except Exception as e:
+                    rec['exc'] = common.exn_name(e)
+                    rec['ret'] = None
+                    raise
+                finally:
+                    rec['after'] = d.snap()
+                    rec['slot_after'] = slot_of(self_, which)
+                    p = tap.private
+                    if p is not None and (p['start'] != rec['start'] or (patched and p['ind'] is not None
+                                                                         and p['ind'] != ind)):
+                        d.private_mismatch += 1
+                    d.log.append(rec)
+            return f
 
-        def unclaim(which, orig):
+        def unclaim_method(which, orig):
             def f(self_):
-                if not same_store(self_.token_store):
+                if self_.token_store is not store:
                     return orig(self_)
-                cur = self_._leading_comment if which == 'lead' else self_._trailing_comment
+                cur = lead_of(self_) if which == 'lead' else trail_of(self_)
                 rec = {'op': 'unclaim', 'which': which, 'cur': d.tid(cur) if cur is not None else None,
-                       'before': d.snap(), 'n': d.nid(self_), 'mode': 0}
+                       'before': before_snap(), 'n': d.nid(self_), 'mode': 0}
                 r = orig(self_)
                 rec['after'] = d.snap()
                 rec['exc'] = None
                 rec['ret'] = d.tid(r) if r is not None else None
-                now = self_._leading_comment if which == 'lead' else self_._trailing_comment
-                rec['slot_after'] = [d.tid(now)] if now is not None else []
+                rec['slot_after'] = slot_of(self_, which)
                 d.log.append(rec)
                 return r
             return f
 
-        def unclaim_inter(self_, comments=None):
-            rep = self_._repeated
-            if not same_store(rep.token_store):
-                return tap.orig_ui(self_, comments)
-            comments = list(comments) if comments is not None else None
-            rec = {'op': 'unclaim_inter', 'items': items_of(rep),
-                   'filter': None if comments is None else [d.ids.get(id(c), 0) for c in comments],
-                   'before': d.snap(), 'r': d.nid(rep), 'mode': 0}
-            try:
-                r = tap.orig_ui(self_, comments)
-                rec['exc'] = None
-                rec['ret'] = [d.tid(c) for c in r]
-                return r
-            except Exception as e:
-                rec['exc'] = common.exn_name(e)
-                rec['ret'] = []
-                raise
-            finally:
-                rec['after'] = d.snap()
-                rec['items_after'] = [(a, b) for a, b, _, _ in items_of(rep)]
-                rec['slot_after'] = [b for a, b, _, _ in items_of(rep) if a]
-                d.log.append(rec)
+        def inter_method(kind, orig):
+            def f(self_, comments=None):
+                rep = getattr(self_, 'repeated', None)
+                if rep is None or rep.token_store is not store:
+                    return orig(self_, comments)
+                comments = list(comments) if comments is not None else None
+                flt = None if comments is None else [d.ids.get(id(c), 0) for c in comments]
+                rec = {'items': items_of(rep), 'filter': flt, 'before': before_snap(), 'r': d.nid(rep), 'mode': 0}
+                if kind == 'claim':
+                    parent = d.parents.get(id(rep))
+                    rec.update({'op': 'claimer', 'ph': d.tid(rep.first_token),
+                                'mfirst': d.tid(parent.first_token) if parent is not None else 0,
+                                'mlast': d.tid(parent.last_token) if parent is not None else 0})
+                    if flt is not None:
+                        rec['filter'] = sorted(set(flt))
+                else:
+                    rec['op'] = 'unclaim_inter'
+                try:
+                    r = orig(self_, comments)
+                    rec['exc'] = None
+                    rec['ret'] = [d.tid(c) for c in r]
+                    return r
+                except Exception as e:
+                    rec['exc'] = common.exn_name(e)
+                    rec['ret'] = []
+                    raise
+                finally:
+                    rec['after'] = d.snap()
+                    rec['items_after'] = [(a, b) for a, b, _, _ in items_of(rep)]
+                    rec['slot_after'] = [b for a, b, _, _ in items_of(rep) if a]
+                    d.log.append(rec)
+            return f
 
-        sc._claim_comment = claim
-        sc.SurroundingCommentsMixin.claim_leading_comment = claim_method('lead', self.orig_cl)
-        sc.SurroundingCommentsMixin.claim_trailing_comment = claim_method('trail', self.orig_ct)
-        ic._CommentClaimer.claim = claimer
-        sc.SurroundingCommentsMixin.unclaim_leading_comment = unclaim('lead', self.orig_ul)
-        sc.SurroundingCommentsMixin.unclaim_trailing_comment = unclaim('trail', self.orig_ut)
-        ic.RepeatedNodeWithInterleavingCommentsWrapper.unclaim_interleaving_comments = unclaim_inter
+        for cls, name in d.patch_points:
+            orig = cls.__dict__[name]
+            if name == 'claim_leading_comment':
+                new = claim_method('lead', orig)
+            elif name == 'claim_trailing_comment':
+                new = claim_method('trail', orig)
+            elif name == 'unclaim_leading_comment':
+                new = unclaim_method('lead', orig)
+            elif name == 'unclaim_trailing_comment':
+                new = unclaim_method('trail', orig)
+            elif name == 'claim_interleaving_comments':
+                new = inter_method('claim', orig)
+            else:
+                new = inter_method('unclaim', orig)
+            self.saved.append((cls, name, orig))
+            setattr(cls, name, new)
+
+        # optional: the private entry point of the surrounding claims, when it has the shape we know
+        self.sc, self.orig_private = sc, None
+        pf = getattr(sc, '_claim_comment', None)
+        if pf is not None and {'current', 'token_store', 'start', 'backwards', 'ignore_if_already_claimed'} <= \
+                set(inspect.signature(pf).parameters):
+            self.orig_private = pf
+
+            sig = inspect.signature(pf)
+
+            def private_claim(*a, **kw):
+                try:
+                    b = sig.bind(*a, **kw)
+                    if b.arguments.get('token_store') is store:
+                        tap.private = {'start': d.tid(b.arguments['start']), 'ind': b.arguments.get('indented')}
+                except Exception:
+                    pass
+                return pf(*a, **kw)
+            sc._claim_comment = private_claim
         return self
 
     def __exit__(self, *a):
-        self.sc._claim_comment = self.orig_claim
-        self.ic._CommentClaimer.claim = self.orig_claimer
-        self.sc.SurroundingCommentsMixin.unclaim_leading_comment = self.orig_ul
-        self.sc.SurroundingCommentsMixin.unclaim_trailing_comment = self.orig_ut
-        self.ic.RepeatedNodeWithInterleavingCommentsWrapper.unclaim_interleaving_comments = self.orig_ui
-        self.sc.SurroundingCommentsMixin.claim_leading_comment = self.orig_cl
-        self.sc.SurroundingCommentsMixin.claim_trailing_comment = self.orig_ct
+        for cls, name, orig in self.saved:
+            setattr(cls, name, orig)
+        if self.orig_private is not None:
+            self.sc._claim_comment = self.orig_private
         return False
 
 
@@ -834,56 +969,34 @@ def coq_case(full0, table0, hists, patched):
 
 
 # ---------------------------------------------------------------------------------------------
-def is_patched() -> bool:
-    """tie: does _claim_comment take the indentation class (the D13 repair)?  The model follows the code."""
-    import inspect
-    sc = _imp()[5]
-    return 'indented' in inspect.signature(sc._claim_comment).parameters
-
-
 def tie(ctx):
-    """Shape of the code the model transcribes (fail closed)."""
-    import ast
-    src_sc = (common.REPO / 'autobean_refactor/models/internal/surrounding_comments.py').read_text()
-    src_ic = (common.REPO / 'autobean_refactor/models/internal/interleaving_comments.py').read_text()
+    """The tie is behavioural: the correspondence replays every public comment call.  What must exist is the public
+    API; private names only enable an additional finer cross-check and may be absent."""
+    models = _imp()[2]
     try:
-        t1, t2 = ast.parse(src_sc), ast.parse(src_ic)
-    except SyntaxError as e:
-        ctx.fail('tie', 'comments-tie', f'cannot parse the comment sources: {e}')
-        return
-    names1 = {n.name for n in ast.walk(t1) if isinstance(n, (ast.FunctionDef, ast.ClassDef))}
-    names2 = {n.name for n in ast.walk(t2) if isinstance(n, (ast.FunctionDef, ast.ClassDef))}
-    need1 = {'_take_ignored', '_claim_comment', 'claim_leading_comment', 'unclaim_leading_comment',
-             'claim_trailing_comment', 'unclaim_trailing_comment'}
-    need2 = {'_shift_ignored', '_CommentClaimer', '_find_inner', '_find_outer', 'claim',
-             'claim_interleaving_comments', 'unclaim_interleaving_comments', 'auto_claim_comments'}
-    if not need1 <= names1 or not need2 <= names2:
-        ctx.fail('tie', 'comments-tie', f'functions the model transcribes are missing: '
-                 f'{sorted((need1 - names1) | (need2 - names2))}')
-    # generated auto_claim_comments: self leading, self trailing, then children (the order C14 relies on)
-    gen = common.REPO / 'autobean_refactor/models/generated'
-    n_cls = 0
-    for p in sorted(gen.glob('*.py')):
-        try:
-            t = ast.parse(p.read_text())
-        except SyntaxError as e:
-            ctx.fail('tie', 'comments-tie', f'cannot parse {p.name}: {e}')
-            continue
-        for fn in [n for n in ast.walk(t) if isinstance(n, ast.FunctionDef) and n.name == 'auto_claim_comments']:
-            calls = [ast.unparse(s) for s in fn.body]
-            n_cls += 1
-            has_mixin = any('claim_leading_comment' in c or 'claim_trailing_comment' in c for c in calls)
-            # own leading and own trailing come before the children (their mutual order is immaterial: they can
-            # never compete for the same comment)
-            if has_mixin and sorted(calls[:2]) != ['self.claim_leading_comment(ignore_if_already_claimed=True)',
-                                                   'self.claim_trailing_comment(ignore_if_already_claimed=True)']:
-                ctx.fail('tie', 'comments-tie', f'{p.name}: auto_claim_comments does not start with own leading / '
-                         f'own trailing (ignore_if_already_claimed=True)', {'calls': calls[:3]})
-    ctx.count('tie_generated_auto_claim_methods', n_cls)
+        f = get_parser().parse('; a\n2000-01-01 open Assets:A\n', models.File, auto_claim_comments=False)
+        sur = [m for _p, m in Doc.walk(f) if has_surrounding(m)]
+        ok = bool(sur) and hasattr(f, 'auto_claim_comments') and \
+            all(hasattr(f.raw_directives_with_comments, n) for n in INT_CALLS) and \
+            hasattr(sur[0], 'raw_leading_comment') and hasattr(sur[0], 'raw_trailing_comment')
+    except Exception as e:
+        ok = False
+        ctx.notes.append(f'public comment API probe raised {type(e).__name__}: {e}')
+    if not ok:
+        ctx.fail('tie', 'comments-public-api', 'the public comment API (claim_/unclaim_ leading/trailing/interleaving, '
+                 'raw_leading_comment/raw_trailing_comment, auto_claim_comments) is not there')
+    missing = private_observable()
+    if missing:
+        ctx.count('private_state_unobservable')
+        ctx.notes.append('finer primitive-level cross-check skipped, private names not found with the expected '
+                         'shape: ' + ', '.join(missing))
 
 
 def set_lf(lf):
     ts = _imp()[3]
+    if not all(hasattr(ts, n) for n in ('_LOAD_FACTOR', '_DOUBLE_LOAD_FACTOR', '_HALF_LOAD_FACTOR',
+                                        '_ONE_HALF_LOAD_FACTOR')):
+        return
     ts._LOAD_FACTOR = lf
     ts._DOUBLE_LOAD_FACTOR = lf * 2
     ts._HALF_LOAD_FACTOR = lf // 2
@@ -1035,7 +1148,23 @@ def run_document(ctx, prop: str, lines, crlf, final_nl, ops_seed, n_ops, witness
             msg = readonly_sweep(doc, rng, budget=150)
             if msg:
                 mon('C04', 'C04:readonly', msg, {'flag': flag, 'ops': ops})
+        if plan is None:
+            # "at all times": also in a deep copy every comment is unowned or owned once, flag coherent
+            try:
+                cp = Doc(text, flag, file=copy.deepcopy(doc.file))
+            except Exception:
+                cp = None
+            if cp is not None:
+                msg = check_ownership(cp)
+                if msg:
+                    mon('C14', 'C14:ownership-in-copy', 'in a deep copy of the document: ' + msg,
+                        {'flag': flag, 'ops': ops})
+                elif cp.table() != doc.table():
+                    mon('C14', 'C14:ownership-in-copy', 'a deep copy of the document attributes comments differently',
+                        {'flag': flag, 'ops': ops})
         hists[flag].append(prims)
+        if doc.private_mismatch:
+            ctx.count('private_public_argument_mismatch', doc.private_mismatch)
         metas[flag].append(ops)
         ctx.count('impl_primitive_calls', len(prims))
         for p in prims:
@@ -1077,13 +1206,13 @@ def rule_check(ctx, doc: Doc, lines, exp, blocks, mon):
             for it in m.items:
                 if isinstance(it, models.BlockComment):
                     got[line_of(it)] = ('standalone',)
-        elif isinstance(m, sc.SurroundingCommentsMixin):
-            piv = m._leading_comment_pivot if hasattr(m, '_leading_comment_pivot') else None
+        elif has_surrounding(m):
+            piv = own_start_token(m)
             start = line_of(piv) if piv is not None else None
-            if m._leading_comment is not None:
-                got[line_of(m._leading_comment)] = ('lead', start)
-            if m._trailing_comment is not None:
-                got[line_of(m._trailing_comment)] = ('trail', start)
+            if lead_of(m) is not None:
+                got[line_of(lead_of(m))] = ('lead', start)
+            if trail_of(m) is not None:
+                got[line_of(trail_of(m))] = ('trail', start)
     ctx.count('rule_comments_checked', len(exp))
     ends_of = {a: b for a, b in blocks}
     # an unindented comment directly followed by an indented line: whether the directive above extends over both
@@ -1164,6 +1293,8 @@ def lines_of_fixed(texts):
 
 
 def run_all(ctx, prop: str, n_quick: int, n_thorough: int):
+    for old in ctx.scratch.glob('cases_*.v'):
+        old.unlink()
     tie(ctx)
     n = ctx.scale(n_quick, n_thorough)
     all_cases = []
@@ -1235,11 +1366,11 @@ def run(ctx: common.Ctx):
     ctx.rule = RULE
     ctx.assumptions += ASSUME
     ctx.require_coq(['properties/C14'], extra_targets=['CommentsRun'])
-    run_all(ctx, 'C14', 400, 4000)
+    run_all(ctx, 'C14', 330, 4000)
 
 
 def search(ctx: common.Ctx):
-    run_all(ctx, 'C14', 400, 4000)
+    run_all(ctx, 'C14', 330, 4000)
 
 
 def replay(ctx, path):
